@@ -448,7 +448,8 @@ fn op_kind(op: &Op) -> &'static str {
 
 fn atomic_signature() -> u64 {
     let mut h: u64 = 0xcbf2_9ce4_8422_2325;
-    for e in cx().events.iter().filter(|e| e.kind == EvKind::Atomic) {
+    let first = cx().events.iter().position(|e| e.kind == EvKind::OpStart).unwrap_or(0);
+    for e in cx().events[first..].iter().filter(|e| e.kind == EvKind::Atomic) {
         h = (h ^ (e.actor as u64 + 1)).wrapping_mul(0x0000_0100_0000_01B3);
     }
     h
@@ -634,7 +635,8 @@ impl Scenario for Canon {
         judge_c08(&g, &bm, &prog, &res, &preset, label);
         // steps per actor as actually executed
         let mut per = vec![0u64; prog.len()];
-        for e in cx().events.iter().filter(|e| e.kind == EvKind::Atomic) {
+        let first = cx().events.iter().position(|e| e.kind == EvKind::OpStart).unwrap_or(0);
+        for e in cx().events[first..].iter().filter(|e| e.kind == EvKind::Atomic) {
             per[e.actor as usize] += 1;
         }
         let possible = multinomial(&per);
